@@ -300,10 +300,14 @@ class Base:
                 annotations = self.annotations if not args or not any(self is arg for arg in args) else ()
             else:
                 annotations = simplified.annotations
-        if variables is None and op in all_operations:
-            variables = self.variables
-        if symbolic is None and op in all_operations:
-            symbolic = self.symbolic
+        # a leaf (or union) node built like self keeps self's variables / symbolic flag -- but only when it still is
+        # that node: a simplification result brings its own, and a union over other operands is re-derived from them
+        same_args = len(args) == len(self.args) and all(a is b for a, b in zip(args, self.args, strict=True))
+        if op in all_operations and (op != "union" or same_args):
+            if variables is None:
+                variables = self.variables if simplified is None else simplified.variables
+            if symbolic is None:
+                symbolic = self.symbolic if simplified is None else simplified.symbolic
 
         return type(self)(
             op,
